@@ -612,7 +612,43 @@ class Collide:
                               else _yatiml_extra)
 
 
+class Company3:
+    """An employee object may also be referenced outside the index."""
+    def __init__(self, employees: Dict[str, Employee],
+                 boss: Optional[Employee] = None) -> None:
+        self.employees, self.boss = employees, boss
+
+    @classmethod
+    def _yatiml_sweeten(cls, node: yatiml.Node) -> None:
+        node.index_attribute_to_map('employees', 'name')
+
+
+class Team3:
+    def __init__(self, members: List[Employee],
+                 lead: Optional[Employee] = None) -> None:
+        self.members, self.lead = members, lead
+
+    @classmethod
+    def _yatiml_sweeten(cls, node: yatiml.Node) -> None:
+        node.seq_attribute_to_map('members', 'name')
+
+
+def _staff(mode):
+    m, v = Employee('Mary', 'Director'), Employee('Vishnu', 'Sales', 32)
+    if mode == 0:
+        return Company3({'Mary': m, 'Vishnu': v})
+    if mode == 1:
+        return Company3({'Mary': m, 'Vishnu': v}, boss=m)
+    if mode == 2:
+        return Team3([m, v], lead=v)
+    if mode == 3:
+        return Team3([m], lead=None)
+    return [Company3({'Mary': m}), m]
+
+
 DUMP_ONLY_MODELS = [
+    ('staff', Any, [Company3, Team3, Employee], [
+        ('v', [lambda k=k: _staff(k) for k in range(5)])]),
     ('hidden', Hidden, [Hidden], [
         ('v', [lambda: Hidden(1), lambda: Hidden(2, 'x')])]),
     ('plainattrs', PlainAttrs, [PlainAttrs], [
